@@ -319,6 +319,18 @@ def run_case(desc, ctx):
                 for i in range(len(m.vertices)):
                     m.vertices[i] = M.Vec(np.asarray(m.vertices[i], float) * unit)
                 prod += "@units%g" % unit
+            if len(m.vertices) and rng.random() < 0.6:
+                # user attributes on the mesh: a sparse vector attribute with some entries set, a dense scalar one
+                try:
+                    uv_ = m.vertices.create_attribute("user_vec", float, 3)
+                    for i in range(0, len(m.vertices), 2):
+                        uv_[i] = [float(i), 0.5 * i, -1.0]
+                    ud_ = m.vertices.create_attribute("user_dense", int, 1, dense=True)
+                    for i in range(len(m.vertices)):
+                        ud_[i] = 7 * i
+                    prod += "+user_attributes"
+                except Exception as e:
+                    ctx.note("user_attributes_not_attached:" + type(e).__name__)
             pool.append(m)
             shadows.append(Shadow(m, prod))
             ctx.cls("producer:" + prod)
@@ -401,6 +413,33 @@ def run_case(desc, ctx):
                                                   producer=sh.producer, container=name, attribute=an, index=i)
                                     raise CaseAbort()
                             ctx.obs("copy", "attribute_values", len(cm))
+                    # no shared mutable state in the attribute values either: an entry of the copy is updated in place, then one of the source
+                    if m.vertices.has_attribute("user_vec") and c.vertices.has_attribute("user_vec"):
+                        am, ac = m.vertices.get_attribute("user_vec"), c.vertices.get_attribute("user_vec")
+                        before_m = [np.array(am[i], float) for i in range(len(m.vertices))]
+                        try:
+                            x = ac[0]
+                            x += 5.0            # in place on the stored vector of the copy
+                            ac[0] = x
+                        except Exception as e:
+                            ctx.note("in_place_attribute_edit_failed:" + type(e).__name__)
+                        after_m = [np.array(am[i], float) for i in range(len(m.vertices))]
+                        ctx.obs("copy", "attribute_isolation")
+                        if any(not np.array_equal(a_, b_) for a_, b_ in zip(before_m, after_m)):
+                            ctx.violation("copy", "copy", "copy_shares_storage_with_source", "updating an attribute value of the copy in place changed the source's attribute",
+                                          producer=sh.producer, attribute="user_vec")
+                            raise CaseAbort()
+                        before_c = [np.array(ac[i], float) for i in range(len(c.vertices))]
+                        try:
+                            y = am[0]
+                            y -= 3.0
+                            am[0] = y
+                        except Exception:
+                            pass
+                        if any(not np.array_equal(a_, b_) for a_, b_ in zip(before_c, [np.array(ac[i], float) for i in range(len(c.vertices))])):
+                            ctx.violation("copy", "copy", "copy_shares_storage_with_source", "updating an attribute value of the source in place changed the copy's attribute",
+                                          producer=sh.producer, attribute="user_vec")
+                            raise CaseAbort()
                 pool.append(c)
                 shadows.append(Shadow(c, "copy(%s)" % sh.producer))
                 made_by_copy_or_merge.add(len(pool) - 1)
